@@ -495,6 +495,33 @@ example : (extend { ref := .item 1, isFrag := true, parent := .unset } false
             [.node (txt 5 [49]), .node (txt 6 [32]), .frag (.item 9) [(txt 7 [97]).setParent (.syn (.item 9) 0)]]).map (·.parent)
           = [.unset, .unset, .syn (.item 9) 0] := by decide
 
+/-! ## the substitution table is per document -/
+
+theorem createDocs_class (cls : SubTable) : ∀ hist, (createDocs cls hist).1 = cls
+  | [] => rfl
+  | d :: ds => by simp [createDocs, createDoc, createDocs_class cls ds]
+
+/-- **No history dependence**: whatever documents were created before, with whatever `disable-charsub`
+    options, the class table is intact, and a document created next gets exactly the defaults minus its
+    own option — in particular a default-configuration document gets every substitution. -/
+theorem charsubs_table_per_document (cls : SubTable) (hist : List (List (List Nat))) (d : List (List Nat)) :
+    (createDocs cls (hist ++ [d])).1 = cls ∧
+    (createDocs cls (hist ++ [d])).2 = (createDocs cls hist).2 ++ [docCharsubs cls d] ∧
+    docCharsubs cls [] = cls := by
+  refine ⟨createDocs_class cls _, ?_, by simp [docCharsubs]⟩
+  induction hist with
+  | nil => simp [createDocs, createDoc]
+  | cons h hs ih => simpa [createDocs, createDoc] using ih
+
+/-- the option removes exactly the named sources and nothing else, order kept -/
+theorem docCharsubs_mem (cls : SubTable) (d : List (List Nat)) (sd : List Nat × List Nat) :
+    sd ∈ docCharsubs cls d ↔ sd ∈ cls ∧ sd.1 ∉ d := by
+  simp [docCharsubs, List.mem_filter]
+
+/-- `--disable-charsub "'"` then a default document: the second one has all eight entries -/
+example : (createDocs charsubs [[[39]], []]).2.map List.length = [7, 8] ∧ (createDocs charsubs [[[39]], []]).1 = charsubs := by
+  decide
+
 /-! ## the clauses together -/
 
 /-- **C07 over the model**: every clean, consistently labelled stream without nested paragraphs is parsed
